@@ -8,7 +8,8 @@ An embedding is plain data:
   {"scope": [outermost..innermost of SCOPES], "indent": 2|4|8, "k": 1..3, "tags": ["", "x", ...] (rename tag per copy),
    "before": n, "after": n, "inner_before": n, "inner_after": n,
    "inner": None | "if" | "try" | "with" | "for"  (python: one more block around the statements of a function-shaped example),
-   "guard": None | "before" | "after"  (a complete script entry-point block at module level before / after the example)}
+   "guard": None | "before" | "after"  (a complete script entry-point block at module level before / after the example),
+   "rename": None | "defs-only"  (python: copies get distinct function / class names but keep parameter and local names)}
 """
 from __future__ import annotations
 
@@ -59,18 +60,23 @@ class _Bound(ast.NodeVisitor):
         self.names = set()
         self.blocked = set()
         self.stack = []
+        self.defs = set()  # names of functions / classes defined at module level
 
     def _in_class(self):
         return bool(self.stack) and self.stack[-1] == "class"
 
     def visit_ClassDef(self, node):
         (self.blocked if self._in_class() else self.names).add(node.name)
+        if not self.stack:
+            self.defs.add(node.name)
         self.stack.append("class")
         self.generic_visit(node)
         self.stack.pop()
 
     def _func(self, node):
         (self.blocked if self._in_class() else self.names).add(node.name)
+        if not self.stack:
+            self.defs.add(node.name)
         a = node.args
         for arg in a.posonlyargs + a.args + a.kwonlyargs + ([a.vararg] if a.vararg else []) + ([a.kwarg] if a.kwarg else []):
             self.names.add(arg.arg)
@@ -110,6 +116,17 @@ class _Bound(ast.NodeVisitor):
         self.blocked.update(node.names)
 
     visit_Nonlocal = visit_Global
+
+
+def py_def_names(text: str, keep: str | None) -> set:
+    """Module-level function / class names only (the subset of py_bound_names that MUST differ between copies)."""
+    try:
+        tree = ast.parse(text)
+    except SyntaxError:
+        return set()
+    b = _Bound()
+    b.visit(tree)
+    return py_bound_names(text, keep) & b.defs
 
 
 def py_bound_names(text: str, keep: str | None) -> set:
@@ -410,6 +427,12 @@ def embed(unit: list, lang: str, emb: dict, keep: str | None = None, keep_header
             core, inner_map = res
     text = "\n".join(core)
     names = (py_bound_names(text, keep) if py else ts_bound_names(text, keep))
+    if py and emb.get("rename") == "defs-only" and py_def_names(text, keep):
+        # copies share their parameter and local names (two functions that both build `result`): every copy is still its
+        # own function and must be judged on its own; only when the unit consists of definitions
+        tree_kinds = py_top_kinds(text)
+        if tree_kinds <= {"FunctionDef", "AsyncFunctionDef", "ClassDef", "Import", "ImportFrom"}:
+            names = py_def_names(text, keep)
     inner = []
     starts = []
     inner += _filler(lang, emb.get("inner_before", 0), counter, True)
